@@ -46,8 +46,8 @@ META = dict(
     ],
     need=["lanczos_full", "lanczos_partial", "slq_full_order", "slq_probes_recorded", "elbo_re_calls",
           "elbo_re_evidence", "elbo_re_kl", "elbo_re_resumed", "elbo_resume_split_inside_batch", "elbo_re_slq", "elbo_cl_calls",
-          "elbo_cl_vs_re"],
-    quick=dict(cases=70, workers=6, budget_s=60),
+          "elbo_cl_vs_re", "elbo_re_analytic"],
+    quick=dict(cases=70, workers=6, budget_s=150),
     thorough=dict(cases=1500, workers=16, budget_s=780),
     design_ref="DESIGN.md §5 C34",
     level_text="~70 (quick) generated operators / models; every option route compared with a closed form",
@@ -452,6 +452,23 @@ def case_elbo_re(ck, rng, bad, with_cl=False):
                 bad(f"elbo_re:kl:{route}", "ELBO of a mean-shifted posterior != log p(d) + c - KL(Q||P)",
                     observed=float(stats["elbo_mean"]), expected=float(logev_c - kl))
 
+    # ---- analytic prior term (JAX): 1/2 <xi^T xi>_Q replaced by 1/2 (Tr Lambda^-1 + mean^T mean), all
+    # eigenvalues via eigsh in signal and in data space; Tr Lambda^-1 includes one unit eigenvalue for every
+    # latent direction the data do not constrain (n - min(m, n) of them, whatever the number of data points)
+    lik = np.array([0.5 * np.sum(iv * (d - R @ (qm + r)) ** 2) for r in res])
+    exp_a = -lik - 0.5 * (np.trace(Sig) + qm @ qm) + 0.5 * n - 0.5 * logdet
+    for aspace in ("signal", "data"):
+        akw = dict(trace_log_method="eigsh", trace_log_space=aspace, compute_all=True, analytic_prior_term=True,
+                   n_batches=int(rng.integers(1, 3)), verbose=False, output_directory=None)
+        esa, sta = jft.estimate_evidence_lower_bound(lh, samples, int(rng.integers(1, nrel + 1)), **akw)
+        esa = np.asarray(esa)
+        ck.hit("elbo_re_analytic")
+        if esa.shape != exp_a.shape or not np.all(np.abs(esa - exp_a) <= 1e-8 * sc):
+            bad(f"elbo_re:analytic:{aspace}", "JAX ELBO samples with analytic_prior_term differ from "
+                "-lik(s) - 1/2 (Tr Lambda^-1 + m^T m) + 1/2 (N - log det Lambda)", observed=esa[:3].tolist(),
+                expected=exp_a[:3].tolist(), n=n, m=m, trace_inv_total=float(sta.get("trace_inv_total", np.nan)),
+                trace_inv_dense=float(np.trace(Sig)))
+
     # ---- classic implementation on the mirrored model -----------------------------------------------------------
     if not with_cl:
         return
@@ -462,56 +479,58 @@ def case_elbo_re(ck, rng, bad, with_cl=False):
     half = res[:n]
     sl = ift.ResidualSampleList(ift.makeField(ld, qm), [ift.makeField(ld, r) for r in half] * 2,
                                 [False] * n + [True] * n)
-    ckw = dict(verbose=False, n_batches=int(rng.integers(1, 4)))
-    cmode = pick(rng, ["all", "compute_all", "partial", "resume", "analytic"])
-    if nrel == 1 and cmode in ("partial", "resume"):
-        cmode = "all"
-    kc = nrel
-    wl, Vl = np.linalg.eigh(Lam)
-    wl, Vl = wl[::-1], Vl[:, ::-1]
-    if cmode == "partial":
-        kc = int(rng.integers(1, nrel))
-    nevc = kc
-    if cmode in ("compute_all", "analytic"):
-        ckw["compute_all"] = True
-        nevc = int(rng.integers(1, nrel + 1))
-    if cmode == "analytic":
-        ckw["analytic_prior_term"] = True
-    if cmode == "resume":
-        kr = int(rng.integers(1, nrel + 1))
-        ckw["resume_eigenvectors"] = Vl[:, :kr] * rng.choice([-1.0, 1.0], kr)
-        ckw["resume_eigenvalues"] = wl[:kr].copy()
-    esc, stc = ift.estimate_evidence_lower_bound(ham, sl, nevc, **ckw)
-    ck.hit("elbo_cl_calls")
-    esc = np.array([float(s.asnumpy()) for s in esc.iterator()])
-    trl = float(np.sum(np.log(wl[:kc])))
-    if cmode == "analytic":
-        # 1/2 <xi^T xi>_Q is replaced by 1/2 (Tr Lambda^-1 + mean^T mean)
-        lik = np.array([0.5 * np.sum(iv * (d - R @ (qm + r)) ** 2) for r in np.concatenate([half, -half])])
-        exp_c = -lik - 0.5 * (np.trace(Sig) + qm @ qm) + 0.5 * n - 0.5 * trl
-    else:
-        exp_c = np.array([-Hnp(R, iv, d, qm + r) for r in np.concatenate([half, -half])]) + 0.5 * n - 0.5 * trl
-    if esc.shape != exp_c.shape or not np.all(np.abs(esc - exp_c) <= 1e-8 * sc):
-        bad(f"elbo_cl:samples:{cmode}", "classic ELBO samples differ from the dense closed form",
-            observed=esc[:3].tolist(), expected=exp_c[:3].tolist())
-        return
-    mc = float(stc["elbo_mean"].asnumpy())
-    if not abs(mc - float(np.mean(exp_c))) <= 1e-8 * sc:
-        bad(f"elbo_cl:mean:{cmode}", "classic elbo_mean differs from the closed form", observed=mc,
-            expected=float(np.mean(exp_c)))
-    lowc = 0.5 * (nrel - kc) * float(np.min(np.log(wl[:kc])))
-    if not abs(float(stc["lower_error"].asnumpy()) - lowc) <= 1e-8 * sc:
-        bad("elbo_cl:lower_error", "classic lower_error differs from 1/2 (n_rel - k) min log(lambda)",
-            observed=float(stc["lower_error"].asnumpy()), expected=lowc)
-    if cmode != "analytic" and kc == nrel and mode != "partial":
-        ck.hit("elbo_cl_vs_re")
-        if not abs(mc - float(stats["elbo_mean"])) <= 1e-8 * sc:
-            bad("elbo:cl-vs-re", "classic and JAX ELBO differ on the mirrored model and samples",
-                cl=mc, re=float(stats["elbo_mean"]), route=route)
-    if cmode != "partial" and qk == "exact" and cmode != "analytic":
-        if not abs(mc - logev_c) <= 1e-8 * sc:
-            bad("elbo_cl:evidence", "classic ELBO of the exact posterior != log p(d) + 1/2 log|2 pi N|",
-                observed=mc, expected=float(logev_c))
+    # every classic mode on every model (all eigenvalues requested / compute_all / partial / resumed from
+    # exact eigenpairs / analytic prior term), so that each option meets models with more data points than
+    # parameters and vice versa
+    cmodes = ["all", "compute_all", "analytic"] + (["partial", "resume"] if nrel > 1 else [])
+    for cmode in cmodes:
+        ckw = dict(verbose=False, n_batches=int(rng.integers(1, 4)))
+        kc = nrel
+        wl, Vl = np.linalg.eigh(Lam)
+        wl, Vl = wl[::-1], Vl[:, ::-1]
+        if cmode == "partial":
+            kc = int(rng.integers(1, nrel))
+        nevc = kc
+        if cmode in ("compute_all", "analytic"):
+            ckw["compute_all"] = True
+            nevc = int(rng.integers(1, nrel + 1))
+        if cmode == "analytic":
+            ckw["analytic_prior_term"] = True
+        if cmode == "resume":
+            kr = int(rng.integers(1, nrel + 1))
+            ckw["resume_eigenvectors"] = Vl[:, :kr] * rng.choice([-1.0, 1.0], kr)
+            ckw["resume_eigenvalues"] = wl[:kr].copy()
+        esc, stc = ift.estimate_evidence_lower_bound(ham, sl, nevc, **ckw)
+        ck.hit("elbo_cl_calls")
+        esc = np.array([float(s.asnumpy()) for s in esc.iterator()])
+        trl = float(np.sum(np.log(wl[:kc])))
+        if cmode == "analytic":
+            # 1/2 <xi^T xi>_Q is replaced by 1/2 (Tr Lambda^-1 + mean^T mean)
+            lik = np.array([0.5 * np.sum(iv * (d - R @ (qm + r)) ** 2) for r in np.concatenate([half, -half])])
+            exp_c = -lik - 0.5 * (np.trace(Sig) + qm @ qm) + 0.5 * n - 0.5 * trl
+        else:
+            exp_c = np.array([-Hnp(R, iv, d, qm + r) for r in np.concatenate([half, -half])]) + 0.5 * n - 0.5 * trl
+        if esc.shape != exp_c.shape or not np.all(np.abs(esc - exp_c) <= 1e-8 * sc):
+            bad(f"elbo_cl:samples:{cmode}", "classic ELBO samples differ from the dense closed form",
+                observed=esc[:3].tolist(), expected=exp_c[:3].tolist())
+            continue
+        mc = float(stc["elbo_mean"].asnumpy())
+        if not abs(mc - float(np.mean(exp_c))) <= 1e-8 * sc:
+            bad(f"elbo_cl:mean:{cmode}", "classic elbo_mean differs from the closed form", observed=mc,
+                expected=float(np.mean(exp_c)))
+        lowc = 0.5 * (nrel - kc) * float(np.min(np.log(wl[:kc])))
+        if not abs(float(stc["lower_error"].asnumpy()) - lowc) <= 1e-8 * sc:
+            bad("elbo_cl:lower_error", "classic lower_error differs from 1/2 (n_rel - k) min log(lambda)",
+                observed=float(stc["lower_error"].asnumpy()), expected=lowc)
+        if cmode != "analytic" and kc == nrel and mode != "partial":
+            ck.hit("elbo_cl_vs_re")
+            if not abs(mc - float(stats["elbo_mean"])) <= 1e-8 * sc:
+                bad("elbo:cl-vs-re", "classic and JAX ELBO differ on the mirrored model and samples",
+                    cl=mc, re=float(stats["elbo_mean"]), route=route)
+        if cmode != "partial" and qk == "exact" and cmode != "analytic":
+            if not abs(mc - logev_c) <= 1e-8 * sc:
+                bad("elbo_cl:evidence", "classic ELBO of the exact posterior != log p(d) + 1/2 log|2 pi N|",
+                    observed=mc, expected=float(logev_c))
 
 
 def gen_gauss_model_big(rng):
